@@ -85,6 +85,33 @@ def run_replay(path, timeout=600):
     return None, out
 
 
+_SYM_CACHE = {}
+
+
+def _symbols(t):
+    """names of the uninterpreted constants (variables) occurring in t"""
+    i = t.get_id()
+    hit = _SYM_CACHE.get(i)
+    if hit is not None and hit[1].get_id() == i:
+        return hit[0]
+    acc, seen, stack = set(), set(), [t]
+    while stack:
+        x = stack.pop()
+        xi = x.get_id()
+        if xi in seen:
+            continue
+        seen.add(xi)
+        if z3.is_const(x) and x.decl().kind() == z3.Z3_OP_UNINTERPRETED:
+            acc.add(x.decl().name())
+        else:
+            stack.extend(x.children())
+    fs = frozenset(acc)
+    if len(_SYM_CACHE) > 200000:
+        _SYM_CACHE.clear()
+    _SYM_CACHE[i] = (fs, t)
+    return fs
+
+
 def _uf_apps(terms, names):
     seen, out = set(), []
     stack = list(terms)
@@ -225,6 +252,17 @@ def discharge(check_id, job, pr, out, replay_kind, describe=None, timeout_ms=400
                     v = None
                 else:
                     info["solver"] = (info.get("winner") or info["solver"]) + " [abstraction + lemmas]"
+            if v is None and tries == 0 and len(cons) > 120 and acons is None:
+                # focused attempt: only the constraints whose symbols all occur in the goal (sound: a subset of the assumptions);
+                # on long paths the rest is about other candidates and only costs case splits
+                gv = _symbols(goal)
+                focus = [c for c in (light if light is not None else cons) if _symbols(c) <= gv]
+                v, model, info = solve.decide(focus, z3.Not(goal), pr.inputs, timeout_ms=2000, use_external=False)
+                out.d["queries"] += 1
+                if v != "unsat":
+                    v = None
+                else:
+                    info["solver"] += " [constraints over the goal's symbols only]"
             if v is None and light is not None and tries == 0 and out.d.get("inproc_unknown_streak", 0) < 3:
                 # sound shortcut: fewer assumptions (no enclosure tables); unsat here implies unsat with them
                 v, model, info = solve.decide(light, z3.Not(goal), pr.inputs, timeout_ms=min(timeout_ms, 3000),
@@ -254,7 +292,9 @@ def discharge(check_id, job, pr, out, replay_kind, describe=None, timeout_ms=400
                     done_ok.add(name)
                     out.sample({"obligation": name, "path": pr.index, "decisions": len(pr.decisions),
                                 "verdict": "unsat", "solver": info.get("winner") or info["solver"],
-                                "time_s": info["time_s"], "job": job})
+                                "time_s": info["time_s"], "job": job,
+                                "goal_term": str(goal).replace("\n", " ")[:400],
+                                "path_condition_size": len(pr.pc), "side_constraints": len(pr.side) + len(pr.heavy)})
                     verdict = "unsat"
                 else:
                     verdict = "unreproduced"
